@@ -2,6 +2,7 @@ import LolHtml.Lemmas.StreamLocations
 import LolHtml.Lemmas.LocationsOk
 import LolHtml.Lemmas.StreamLocationsAll
 import LolHtml.Lemmas.StreamIndep
+import LolHtml.Lemmas.StreamTextContig
 import LolHtml.Thm.C15_Core
 import LolHtml.Lemmas.SpecAttrsWf
 import LolHtml.Model.AttrsApi
@@ -289,6 +290,128 @@ def C14_text_contiguous_statement (log : γ → List Token) (w : World γ) (g : 
       (match l[i], l[i + 1] with
        | .text _ _ false s1, .text _ _ _ s2 => s1.end = s2.start
        | _, _ => True)
+
+/-- the rewriter between calls, for text contiguity -/
+def RT (log : γ → List Token) (r : Rewriter γ) : Prop :=
+  Good (log r.stream.disp.ctl) ∧ (r.poisoned = false → r.stream.TxtInv log)
+
+theorem new_RT (w : World γ) (log : γ → List Token) (g : γ) (cfg : Settings) (hg : log g = []) :
+    RT log (Rewriter.new w g cfg) := by
+  have ho : Good (log g) := by rw [hg]; exact ⟨trivial, by simp⟩
+  have hT : TInv log (Rewriter.new w g cfg).stream.disp := by
+    refine ⟨ho, ?_, ?_⟩
+    · intro hp; simp [Rewriter.new, Stream.new, Stream.disp, Parser.new, Disp.new] at hp
+    · intro _ a ha
+      simp only [Rewriter.new, Stream.new, Stream.disp, Parser.new, Disp.new] at ha
+      rw [hg] at ha; simp at ha
+  refine ⟨ho, fun _ => ⟨hT, ?_⟩⟩
+  have hnp : (Rewriter.new w g cfg).stream.disp.textPending = false := rfl
+  cases hl : (Rewriter.new w g cfg).stream.parser.ls with
+  | none => exact hnp
+  | some l => exact notPending_adj hnp
+
+theorem write_RT {w : World γ} {log : γ → List Token} (hlog : Logging w.ctl log) (ht : EmitsChecked w.tbl = true)
+    (r : Rewriter γ) (data : Bytes) (h : RT log r) : RT log (r.write w data).1 := by
+  unfold Model.Rewriter.write
+  split
+  · exact h
+  · rename_i hp
+    have hp' : r.poisoned = false := by simpa using hp
+    obtain ⟨ho, hok⟩ := Stream.write_TxtInv hlog ht r.stream data (h.2 hp')
+    dsimp only
+    split
+    · rename_i hres
+      exact ⟨ho, fun _ => hok hres⟩
+    · exact ⟨ho, fun hcc => by simp at hcc⟩
+
+theorem writeAll_RT {w : World γ} {log : γ → List Token} (hlog : Logging w.ctl log) (ht : EmitsChecked w.tbl = true)
+    (chunks : List Bytes) (r : Rewriter γ) (h : RT log r) : RT log (writeAll w r chunks).1 := by
+  induction chunks generalizing r with
+  | nil => exact h
+  | cons c cs ih => exact ih _ (write_RT hlog ht r c h)
+
+/-- **C14_text_contiguous** (dispatcher level: one chunk per text lexeme, plus the closing empty chunk). For every
+table with `EmitsChecked`, every tag configuration, settings record, EVERY controller (no restriction at all: handlers
+may rewrite, remove content, fail, even return the model's panic markers) and every history `write* ; end` (any
+chunking, failing calls included), the list of tokens handed to the controller is `Good`:
+* after a text chunk that is not `last_in_text_node`, the next token is again a text chunk and starts exactly where
+  that one ended (the next chunk of the node, or the empty closing chunk) — within a `write` and across `write`s;
+* the source range of every text chunk is exactly as long as the chunk's bytes.
+Hence the chunks of one text node tile one interval of the source, without gaps or overlaps (`C14_text_node_layout`). -/
+theorem C14_text_contiguous (w : World γ) (log : γ → List Token) (hlog : Logging w.ctl log)
+    (ht : EmitsChecked w.tbl = true) (g : γ) (hg : log g = []) (cfg : Settings) (chunks : List Bytes) :
+    Good (log (run w (Rewriter.new w g cfg) chunks).1.stream.disp.ctl) := by
+  unfold run
+  have h := writeAll_RT hlog ht chunks _ (new_RT w log g cfg hg)
+  dsimp only
+  unfold Model.Rewriter.end
+  split
+  · exact h.1
+  · rename_i hp
+    have hp' : (writeAll w (Rewriter.new w g cfg) chunks).1.poisoned = false := by simpa using hp
+    have := Stream.end_good hlog ht _ (h.2 hp')
+    dsimp only
+    split <;> exact this
+
+/-- … and after any prefix of the history (no `end`) -/
+theorem C14_text_contiguous_prefix (w : World γ) (log : γ → List Token) (hlog : Logging w.ctl log)
+    (ht : EmitsChecked w.tbl = true) (g : γ) (hg : log g = []) (cfg : Settings) (chunks : List Bytes) :
+    Good (log (writeAll w (Rewriter.new w g cfg) chunks).1.stream.disp.ctl) :=
+  (writeAll_RT hlog ht chunks _ (new_RT w log g cfg hg)).1
+
+/-- the statement announced earlier, now proved (for logging controllers started with an empty log) -/
+theorem C14_text_contiguous_proved (w : World γ) (log : γ → List Token) (hlog : Logging w.ctl log)
+    (ht : EmitsChecked w.tbl = true) (g : γ) (hg : log g = []) (cfg : Settings) :
+    C14_text_contiguous_statement log w g cfg := by
+  intro chunks l i hi
+  have hl := (C14_text_contiguous w log hlog ht g hg cfg chunks).1.get i hi
+  change Link l[i] l[i + 1] at hl
+  generalize l[i] = a at hl ⊢
+  generalize l[i + 1] = b at hl ⊢
+  unfold Link at hl
+  split
+  · rename_i s1 _ _ s2
+    simp only at hl
+    exact hl.symm
+  · trivial
+
+/-- **C14_text_node_layout.** In a `Good` list, let `l[i], …, l[i+n-1]` be non-last text chunks. Then `l[i+n]` starts
+where their bytes, laid end to end from `l[i]`'s start, stop; and (for `n > 0`) it is a text chunk. So the lexeme-level
+pieces of a text node are exactly the `(start, parts)` layout that package `enc`'s `textNode` assumes. -/
+theorem C14_text_node_layout {l : List Token} (h : Good l) (i : Nat) : ∀ (n : Nat) (hn : i + n < l.length),
+    (∀ k (hk : k < n), OpenText (l[i + k]'(by omega))) →
+    (l[i + n]).src.start = (l[i]'(by omega)).src.start + (((l.drop i).take n).map Token.raw).flatten.length ∧
+    (0 < n → ∃ b tt last s, l[i + n] = .text b tt last s) := by
+  intro n
+  induction n with
+  | zero => intro hn _; exact ⟨by simp, fun h0 => absurd h0 (by omega)⟩
+  | succ n ih =>
+    intro hn hopen
+    obtain ⟨ih1, _⟩ := ih (by omega) (fun k hk => hopen k (by omega))
+    obtain ⟨b, tt, s, hb⟩ := hopen n (by omega)
+    have hlink := h.1.get (i + n) (by omega)
+    have hlen := h.2 _ (List.getElem_mem (h := (by omega : i + n < l.length)))
+    rw [hb] at hlink hlen
+    have htk : ((l.drop i).take (n + 1)).map Token.raw = ((l.drop i).take n).map Token.raw ++ [b] := by
+      have hlt : n < (l.drop i).length := by simp only [List.length_drop]; omega
+      rw [List.take_succ_eq_append_getElem hlt, List.map_append]
+      simp only [List.getElem_drop, List.map_cons, List.map_nil, hb, Token.raw]
+    rw [htk]
+    simp only [List.flatten_append, List.length_append, List.flatten_cons, List.flatten_nil, List.append_nil]
+    unfold Link at hlink
+    simp only [TextLen] at hlen
+    have hidx : l[i + (n + 1)] = l[i + n + 1] := by congr 1
+    rw [hidx]
+    rw [hb] at ih1
+    simp only [Token.src] at ih1
+    generalize l[i + n + 1] = t at hlink ⊢
+    cases t with
+    | text b2 tt2 last2 s2 =>
+      simp only at hlink
+      refine ⟨?_, fun _ => ⟨b2, tt2, last2, s2, rfl⟩⟩
+      simp only [Token.src]
+      omega
+    | _ => simp at hlink
 
 /-! ### a logging wrapper: the hypotheses are satisfiable by any observing controller -/
 
